@@ -384,8 +384,12 @@ def norm_tree(impl, model, unordered=False, pairs=False):
     return norm_scalar_reply(impl, model)
 
 _EMPTY_DB = re.compile(r" db-?\d+\{\}v\[\]")
-def norm_digest(line, with_mem=True, with_vol=True):
-    line = round_fracs(_EMPTY_DB.sub("", line))
+def norm_digest(line, with_mem=True, with_vol=True, round_floats=False):
+    """round_floats: only for comparing two digests with each other (never for text handed to an extracted
+    reference, which parses the rationals)."""
+    line = _EMPTY_DB.sub("", line)
+    if round_floats:
+        line = round_fracs(line)
     if not with_mem:
         line = re.sub(r"mem=-?\d+", "mem=*", line)
     if not with_vol:
@@ -410,7 +414,7 @@ def compare_lines(script, impl_lines, model_lines, reply_opts=None, digest_opts=
                 continue
         if a.startswith("G ") and b.startswith("G "):
             o = digest_opts or {}
-            if norm_digest(a, **o) == norm_digest(b, **o):
+            if norm_digest(a, round_floats=True, **o) == norm_digest(b, round_floats=True, **o):
                 continue
         return (i, a, b)
     return None
